@@ -696,9 +696,10 @@ where
     /// Returns all underlying text concatenated into a single String
     fn text_join(self, delimiter: &str) -> String {
         let mut s = String::new();
-        for textselection in self {
+        //(the delimiter separates text selections, also if the text gathered so far is empty because of zero-width selections)
+        for (i, textselection) in self.enumerate() {
             let text = textselection.text();
-            if !s.is_empty() {
+            if i > 0 {
                 s += delimiter;
             }
             s += text;
